@@ -765,4 +765,494 @@ theorem LInv.foldl (ops : List LOp) : ∀ {s : LRU}, LInv s → LInv (ops.foldl 
 
 theorem LInv.run (cap : Nat) (ops : List LOp) : LInv (LRU.run cap ops) := LInv.foldl ops (LInv.init cap)
 
+/-! ## membership, as the property theorems phrase it -/
+
+/-- value `id` (with refCounter `r`) is what the TTL cache stores under its key. -/
+def TTL.member (s : TTL) (id : Nat) (r : RC) : Prop := s.m r.key = some id
+
+/-- value `id` (with refCounter `r`) is an entry of the LRU list. -/
+def LRU.member (s : LRU) (id : Nat) (r : RC) : Prop := (r.key, id) ∈ s.order
+
+theorem TInv.member_iff {s : TTL} (inv : TInv s) {id : Nat} {r : RC} (hr : s.core.rcs[id]? = some r) :
+    s.member id r ↔ r.finDone = false := by
+  constructor
+  · intro hm
+    obtain ⟨r', hr', _, hf⟩ := inv.mOk _ _ hm
+    rw [hr] at hr'; cases hr'; exact hf
+  · exact inv.live id r hr
+
+theorem LInv.member_iff {s : LRU} (inv : LInv s) {id : Nat} {r : RC} (hr : s.core.rcs[id]? = some r) :
+    s.member id r ↔ r.finDone = false := by
+  constructor
+  · intro hm
+    obtain ⟨r', hr', _, hf⟩ := inv.inv0.oOk _ _ hm
+    rw [hr] at hr'; cases hr'; exact hf
+  · exact inv.inv0.live id r hr
+
+theorem RCok.calls_iff {r : RC} {h : Nat} (ok : RCok r h) : r.calls = 1 ↔ (r.finDone = true ∧ h = 0) := by
+  have := ok.2.2
+  constructor
+  · intro h1; rw [h1] at this
+    by_cases c : r.finDone = true ∧ h = 0
+    · exact c
+    · simp [c] at this
+  · intro c; simpa [c] using this
+
+theorem RCok.refs_eq {r : RC} {h : Nat} (ok : RCok r h) :
+    r.refs = (if r.finDone = false then 1 else 0) + (h : Int) := by
+  have := ok.2.1
+  cases hf : r.finDone <;> simp [hf] at this ⊢ <;> exact this
+
+/-! ## draining -/
+
+theorem ViewEq.keys {l l' : List RC} (h : ViewEq l l') : l'.map (·.key) = l.map (·.key) := by
+  apply List.ext_getElem?
+  intro j
+  simp only [List.getElem?_map]
+  cases hj : l[j]? with
+  | some r =>
+    obtain ⟨r', hr', k, _, _⟩ := (h j).1 r hj
+    simp [hr', k]
+  | none =>
+    cases hj' : l'[j]? with
+    | none => rfl
+    | some r' =>
+      obtain ⟨r, hr, _⟩ := (h j).2 r' hj'
+      rw [hj] at hr; cases hr
+
+theorem fin_keys (c : Core) (id : Nat) : (c.fin id).rcs.map (·.key) = c.rcs.map (·.key) := by
+  apply List.ext_getElem?
+  intro j
+  simp only [List.getElem?_map, fin_lookup]
+  cases c.rcs[j]? with
+  | none => rfl
+  | some r => by_cases e : id = j <;> simp [e]
+
+theorem RC.finalize_finalize (r : RC) : r.finalize.finalize = r.finalize :=
+  RC.finalize_of_finDone _ (RC.finalize_finDone r)
+
+theorem fin_fin (c : Core) (id : Nat) : (c.fin id).fin id = c.fin id := by
+  have : ((c.fin id).fin id).rcs = (c.fin id).rcs := by
+    apply List.ext_getElem?
+    intro j
+    rw [fin_lookup, fin_lookup]
+    cases c.rcs[j]? with
+    | none => rfl
+    | some r => by_cases e : id = j <;> simp [e, RC.finalize_finalize]
+  show ({ (c.fin id) with rcs := ((c.fin id).fin id).rcs } : Core) = c.fin id
+  rw [this]
+
+/-- `once` of closure `i` has fired (or there is no such closure). -/
+def Released (c : Core) (i : Nat) : Prop := ∀ t, c.toks[i]? = some t → t.once = true
+
+theorem release_toks_length (c : Core) (tok : Nat) : (c.release tok).toks.length = c.toks.length := by
+  unfold Core.release
+  split
+  · rfl
+  · split
+    · rfl
+    · simp
+
+theorem release_released_self (c : Core) (tok : Nat) : Released (c.release tok) tok := by
+  unfold Core.release
+  intro t'
+  split
+  · rename_i hn; intro h; rw [hn] at h; cases h
+  · rename_i t ht
+    split
+    · rename_i ho; intro h; rw [ht] at h; cases h; exact ho
+    · intro h
+      simp only [List.getElem?_set, if_true] at h
+      split at h
+      · cases h; rfl
+      · cases h
+
+theorem release_released_mono (c : Core) (tok i : Nat) (h : Released c i) : Released (c.release tok) i := by
+  by_cases e : tok = i
+  · subst e; exact release_released_self c tok
+  · unfold Core.release
+    split
+    · exact h
+    · split
+      · exact h
+      · intro t' ht'
+        simp only [List.getElem?_set, e, if_false] at ht'
+        exact h t' ht'
+
+/-- the token keeps pointing at the same value; afterwards its `once` has fired. -/
+theorem release_tok_lookup {c : Core} {tok : Nat} {t : Tok} (ht : c.toks[tok]? = some t) :
+    (c.release tok).toks[tok]? = some { t with once := true } := by
+  unfold Core.release
+  rw [ht]
+  simp only
+  split
+  · rename_i ho
+    rw [ht]; congr 1
+    cases t; simp_all
+  · have := (List.getElem_of_getElem? ht).1
+    simp [this]
+
+theorem release_of_released {c : Core} {tok : Nat} {t : Tok} (ht : c.toks[tok]? = some t)
+    (ho : t.once = true) : c.release tok = c := by
+  simp [Core.release, ht, ho]
+
+def Core.releaseAll (c : Core) (is : List Nat) : Core := is.foldl Core.release c
+
+theorem releaseAll_inv (is : List Nat) : ∀ {c : Core}, CInv c →
+    CInv (c.releaseAll is) ∧ ViewEq c.rcs (c.releaseAll is).rcs ∧
+    (c.releaseAll is).toks.length = c.toks.length ∧
+    ∀ i, (i ∈ is ∨ Released c i) → Released (c.releaseAll is) i := by
+  induction is with
+  | nil =>
+    intro c h
+    refine ⟨h, ViewEq.refl _, rfl, ?_⟩
+    intro i hi
+    rcases hi with hi | hi
+    · simp at hi
+    · exact hi
+  | cons a is ih =>
+    intro c h
+    obtain ⟨h1, h2, h3, h4⟩ := ih (h.release a)
+    refine ⟨h1, (viewEq_release c a).trans h2, by rw [← release_toks_length c a]; exact h3, ?_⟩
+    intro i hi
+    apply h4
+    rcases hi with hi | hi
+    · rcases List.mem_cons.mp hi with e | e
+      · subst e; exact Or.inr (release_released_self c i)
+      · exact Or.inl e
+    · exact Or.inr (release_released_mono c a i hi)
+
+theorem releaseAll_range {c : Core} (inv : CInv c) :
+    ∀ t ∈ (c.releaseAll (List.range c.toks.length)).toks, t.once = true := by
+  obtain ⟨_, _, h3, h4⟩ := releaseAll_inv (List.range c.toks.length) inv
+  intro t ht
+  obtain ⟨i, hi⟩ := List.mem_iff_getElem?.mp ht
+  have hlt := (List.getElem_of_getElem? hi).1
+  rw [h3] at hlt
+  exact h4 i (Or.inl (List.mem_range.mpr hlt)) t hi
+
+/-- a state in which every closure was called and the key of every value was removed has
+finalised every value exactly once. -/
+theorem drained_calls {c : Core} (inv : CInv c) (hrel : ∀ t ∈ c.toks, t.once = true)
+    (hfin : ∀ (id : Nat) (r : RC), c.rcs[id]? = some r → r.finDone = true) :
+    ∀ (id : Nat) (r : RC), c.rcs[id]? = some r → r.calls = 1 := by
+  intro id r hr
+  exact (inv.ok id r hr).calls_iff.mpr ⟨hfin id r hr, held_zero_of_all_released hrel id⟩
+
+/-! ### TTL -/
+
+theorem TTL.done_false_eq (s : TTL) (tok : Nat) :
+    (s.done tok false).1 = { s with core := s.core.release tok } := by
+  unfold TTL.done
+  split
+  · rename_i hn; simp [Core.release, hn]
+  · rfl
+
+theorem TTL.foldl_done_false (is : List Nat) : ∀ s : TTL,
+    (is.map (fun t => TOp.done t false)).foldl (fun s o => (s.step o).1) s
+      = { s with core := s.core.releaseAll is } := by
+  induction is with
+  | nil => intro s; rfl
+  | cons a is ih =>
+    intro s
+    have h1 : (s.step (TOp.done a false)).1 = { s with core := s.core.release a } :=
+      TTL.done_false_eq s a
+    rw [List.map_cons, List.foldl_cons, h1, ih]
+    rfl
+
+theorem TTL.evictLocked_toks (s : TTL) (k : Nat) : (s.evictLocked k).core.toks = s.core.toks := by
+  unfold TTL.evictLocked; split <;> rfl
+
+theorem TTL.evictLocked_keys (s : TTL) (k : Nat) :
+    (s.evictLocked k).core.rcs.map (·.key) = s.core.rcs.map (·.key) := by
+  unfold TTL.evictLocked; split
+  · exact fin_keys _ _
+  · rfl
+
+theorem TTL.evictLocked_none_self (s : TTL) (k : Nat) : (s.evictLocked k).m k = none := by
+  unfold TTL.evictLocked; split
+  · simp
+  · rename_i h; exact h
+
+theorem TTL.evictLocked_none_mono (s : TTL) (k k' : Nat) (h : s.m k' = none) :
+    (s.evictLocked k).m k' = none := by
+  unfold TTL.evictLocked; split
+  · simp only; split <;> simp [h]
+  · exact h
+
+def TTL.evictAll (s : TTL) (ks : List Nat) : TTL := ks.foldl TTL.evictLocked s
+
+theorem TTL.foldl_remove (ks : List Nat) : ∀ s : TTL,
+    (ks.map TOp.remove).foldl (fun s o => (s.step o).1) s = s.evictAll ks := by
+  induction ks with
+  | nil => intro s; rfl
+  | cons a ks ih =>
+    intro s
+    rw [List.map_cons, List.foldl_cons]
+    exact ih _
+
+theorem TTL.evictAll_spec (ks : List Nat) : ∀ s : TTL,
+    (s.evictAll ks).core.toks = s.core.toks ∧
+    (s.evictAll ks).core.rcs.map (·.key) = s.core.rcs.map (·.key) ∧
+    ∀ k, (k ∈ ks ∨ s.m k = none) → (s.evictAll ks).m k = none := by
+  induction ks with
+  | nil => intro s; exact ⟨rfl, rfl, by intro k hk; simpa [TTL.evictAll] using hk⟩
+  | cons a ks ih =>
+    intro s
+    obtain ⟨h1, h2, h3⟩ := ih (s.evictLocked a)
+    refine ⟨h1.trans (TTL.evictLocked_toks s a), h2.trans (TTL.evictLocked_keys s a), ?_⟩
+    intro k hk
+    apply h3
+    rcases hk with hk | hk
+    · rcases List.mem_cons.mp hk with e | e
+      · subst e; exact Or.inr (TTL.evictLocked_none_self s k)
+      · exact Or.inl e
+    · exact Or.inr (TTL.evictLocked_none_mono s a k hk)
+
+theorem TInv.evictAll (ks : List Nat) : ∀ {s : TTL}, TInv s → TInv (s.evictAll ks) := by
+  induction ks with
+  | nil => intro s h; exact h
+  | cons a ks ih => intro s h; exact ih (h.evictLocked a)
+
+theorem TTL.foldl_drain (s : TTL) :
+    s.drainOps.foldl (fun s o => (s.step o).1) s
+      = TTL.evictAll { s with core := s.core.releaseAll (List.range s.core.toks.length) }
+          (s.core.rcs.map (·.key)) := by
+  unfold TTL.drainOps
+  rw [List.foldl_append, TTL.foldl_done_false]
+  have : s.core.rcs.map (fun r => TOp.remove r.key) = (s.core.rcs.map (·.key)).map TOp.remove := by
+    simp [List.map_map]
+  rw [this, TTL.foldl_remove]
+
+theorem TInv.drained {s : TTL} (inv : TInv s) :
+    let d := s.drainOps.foldl (fun s o => (s.step o).1) s
+    d.core.rcs.length = s.core.rcs.length ∧ ∀ (id : Nat) (r : RC), d.core.rcs[id]? = some r → r.calls = 1 := by
+  intro d
+  have hd : d = _ := TTL.foldl_drain s
+  obtain ⟨c1, v1, _, _⟩ := releaseAll_inv (List.range s.core.toks.length) inv.core
+  have inv1 : TInv { s with core := s.core.releaseAll (List.range s.core.toks.length) } :=
+    inv.of_viewEq c1 v1
+  have inv2 := inv1.evictAll (s.core.rcs.map (·.key))
+  obtain ⟨t2, k2, m2⟩ := TTL.evictAll_spec (s.core.rcs.map (·.key))
+    { s with core := s.core.releaseAll (List.range s.core.toks.length) }
+  rw [← hd] at inv2 t2 k2 m2
+  simp only at t2 k2 m2
+  have hkeys : d.core.rcs.map (·.key) = s.core.rcs.map (·.key) := k2.trans v1.keys
+  refine ⟨by simpa using congrArg List.length hkeys, ?_⟩
+  apply drained_calls inv2.core
+  · rw [t2]; exact releaseAll_range inv.core
+  · intro id r hr
+    cases hf : r.finDone with
+    | true => rfl
+    | false =>
+      exfalso
+      have hl := inv2.live id r hr hf
+      have hmem : r.key ∈ s.core.rcs.map (·.key) := by
+        rw [← hkeys]
+        exact List.mem_map.mpr ⟨r, List.mem_of_getElem? hr, rfl⟩
+      rw [m2 r.key (Or.inl hmem)] at hl
+      cases hl
+
+/-! ### LRU -/
+
+theorem LRU.done_eq (s : LRU) (tok : Nat) : (s.done tok).1 = { s with core := s.core.release tok } := by
+  unfold LRU.done
+  split
+  · rename_i hn; simp [Core.release, hn]
+  · rfl
+
+theorem LRU.foldl_done (is : List Nat) : ∀ s : LRU,
+    (is.map LOp.done).foldl (fun s o => (s.step o).1) s = { s with core := s.core.releaseAll is } := by
+  induction is with
+  | nil => intro s; rfl
+  | cons a is ih =>
+    intro s
+    have h1 : (s.step (LOp.done a)).1 = { s with core := s.core.release a } := LRU.done_eq s a
+    rw [List.map_cons, List.foldl_cons, h1, ih]
+    rfl
+
+/-- key `k` has no entry in the list. -/
+def NoKey (o : List (Nat × Nat)) (k : Nat) : Prop := ∀ id, (k, id) ∉ o
+
+theorem LRU.remove_toks (s : LRU) (k : Nat) : (s.remove k).core.toks = s.core.toks := by
+  unfold LRU.remove; split <;> rfl
+
+theorem LRU.remove_keys (s : LRU) (k : Nat) :
+    (s.remove k).core.rcs.map (·.key) = s.core.rcs.map (·.key) := by
+  unfold LRU.remove; split
+  · exact fin_keys _ _
+  · rfl
+
+theorem LRU.remove_noKey_self (s : LRU) (k : Nat) : NoKey (s.remove k).order k := by
+  unfold LRU.remove; split
+  · intro id h; exact (mem_eraseKey.mp h).2 rfl
+  · rename_i h; exact find_none_not_mem h
+
+theorem LRU.remove_noKey_mono (s : LRU) (k k' : Nat) (h : NoKey s.order k') :
+    NoKey (s.remove k).order k' := by
+  unfold LRU.remove; split
+  · intro id hm; exact h id (mem_eraseKey.mp hm).1
+  · exact h
+
+def LRU.removeAll (s : LRU) (ks : List Nat) : LRU := ks.foldl LRU.remove s
+
+theorem LRU.foldl_remove (ks : List Nat) : ∀ s : LRU,
+    (ks.map LOp.remove).foldl (fun s o => (s.step o).1) s = s.removeAll ks := by
+  induction ks with
+  | nil => intro s; rfl
+  | cons a ks ih =>
+    intro s
+    rw [List.map_cons, List.foldl_cons]
+    exact ih _
+
+theorem LRU.removeAll_spec (ks : List Nat) : ∀ s : LRU,
+    (s.removeAll ks).core.toks = s.core.toks ∧
+    (s.removeAll ks).core.rcs.map (·.key) = s.core.rcs.map (·.key) ∧
+    ∀ k, (k ∈ ks ∨ NoKey s.order k) → NoKey (s.removeAll ks).order k := by
+  induction ks with
+  | nil => intro s; exact ⟨rfl, rfl, by intro k hk; simpa [LRU.removeAll] using hk⟩
+  | cons a ks ih =>
+    intro s
+    obtain ⟨h1, h2, h3⟩ := ih (s.remove a)
+    refine ⟨h1.trans (LRU.remove_toks s a), h2.trans (LRU.remove_keys s a), ?_⟩
+    intro k hk
+    apply h3
+    rcases hk with hk | hk
+    · rcases List.mem_cons.mp hk with e | e
+      · subst e; exact Or.inr (LRU.remove_noKey_self s k)
+      · exact Or.inl e
+    · exact Or.inr (LRU.remove_noKey_mono s a k hk)
+
+theorem LInv.removeAll (ks : List Nat) : ∀ {s : LRU}, LInv s → LInv (s.removeAll ks) := by
+  induction ks with
+  | nil => intro s h; exact h
+  | cons a ks ih => intro s h; exact ih (h.remove a)
+
+theorem LRU.foldl_drain (s : LRU) :
+    s.drainOps.foldl (fun s o => (s.step o).1) s
+      = LRU.removeAll { s with core := s.core.releaseAll (List.range s.core.toks.length) }
+          (s.core.rcs.map (·.key)) := by
+  unfold LRU.drainOps
+  rw [List.foldl_append, LRU.foldl_done]
+  have : s.core.rcs.map (fun r => LOp.remove r.key) = (s.core.rcs.map (·.key)).map LOp.remove := by
+    simp [List.map_map]
+  rw [this, LRU.foldl_remove]
+
+theorem LInv.drained {s : LRU} (inv : LInv s) :
+    let d := s.drainOps.foldl (fun s o => (s.step o).1) s
+    d.core.rcs.length = s.core.rcs.length ∧ ∀ (id : Nat) (r : RC), d.core.rcs[id]? = some r → r.calls = 1 := by
+  intro d
+  have hd : d = _ := LRU.foldl_drain s
+  obtain ⟨c1, v1, _, _⟩ := releaseAll_inv (List.range s.core.toks.length) inv.inv0.core
+  have inv1 : LInv { s with core := s.core.releaseAll (List.range s.core.toks.length) } :=
+    ⟨inv.inv0.reorder c1 v1 inv.inv0.nodup (fun _ => Iff.rfl), inv.capOk⟩
+  have inv2 := inv1.removeAll (s.core.rcs.map (·.key))
+  obtain ⟨t2, k2, m2⟩ := LRU.removeAll_spec (s.core.rcs.map (·.key))
+    { s with core := s.core.releaseAll (List.range s.core.toks.length) }
+  rw [← hd] at inv2 t2 k2 m2
+  simp only at t2 k2 m2
+  have hkeys : d.core.rcs.map (·.key) = s.core.rcs.map (·.key) := k2.trans v1.keys
+  refine ⟨by simpa using congrArg List.length hkeys, ?_⟩
+  apply drained_calls inv2.inv0.core
+  · rw [t2]; exact releaseAll_range inv.inv0.core
+  · intro id r hr
+    cases hf : r.finDone with
+    | true => rfl
+    | false =>
+      exfalso
+      have hl := inv2.inv0.live id r hr hf
+      have hmem : r.key ∈ s.core.rcs.map (·.key) := by
+        rw [← hkeys]
+        exact List.mem_map.mpr ⟨r, List.mem_of_getElem? hr, rfl⟩
+      exact m2 r.key (Or.inl hmem) id hl
+
+/-! ### repeated evicting release -/
+
+theorem TTL.done_true_core {s : TTL} {tok : Nat} {t : Tok} (ht : s.core.toks[tok]? = some t) :
+    (s.done tok true).1.core = (s.core.release tok).fin t.rc := by
+  unfold TTL.done
+  simp only [ht, if_true]
+  split
+  · rfl
+  · split <;> rfl
+
+theorem TTL.done_true_m {s : TTL} {tok : Nat} {t : Tok} (ht : s.core.toks[tok]? = some t) {r : RC}
+    (hr : ((s.core.release tok).fin t.rc).rcs[t.rc]? = some r) :
+    (s.done tok true).1.m r.key ≠ some t.rc := by
+  unfold TTL.done
+  simp only [ht, if_true, hr]
+  split
+  · simp
+  · assumption
+
+/-- An evicting release whose decrement, finalize and map removal have all happened already is a
+no-op. -/
+theorem TTL.done_true_fix {s' : TTL} {tok : Nat} {t' : Tok} (ht : s'.core.toks[tok]? = some t')
+    (ho : t'.once = true) (hfin : s'.core.fin t'.rc = s'.core)
+    (hm : ∀ r, s'.core.rcs[t'.rc]? = some r → s'.m r.key ≠ some t'.rc) :
+    (s'.done tok true).1 = s' := by
+  unfold TTL.done
+  simp only [ht, release_of_released ht ho, if_true, hfin]
+  split
+  · rfl
+  · rename_i r hr
+    simp [hm r hr]
+
+/-! ### the capacity is a constant of the cache -/
+
+theorem LRU.step_cap (s : LRU) (op : LOp) : (s.step op).1.cap = s.cap := by
+  cases op with
+  | add k v => simp only [LRU.step, LRU.add]; split <;> rfl
+  | get k => simp only [LRU.step, LRU.get]; split <;> rfl
+  | remove k => simp only [LRU.step, LRU.remove]; split <;> rfl
+  | done tok => simp only [LRU.step, LRU.done]; split <;> rfl
+
+theorem LRU.foldl_cap (ops : List LOp) : ∀ s : LRU,
+    (ops.foldl (fun s o => (s.step o).1) s).cap = s.cap := by
+  induction ops with
+  | nil => intro s; rfl
+  | cons o ops ih => intro s; rw [List.foldl_cons, ih, LRU.step_cap]
+
+theorem LRU.run_cap (cap : Nat) (ops : List LOp) : (LRU.run cap ops).cap = cap :=
+  LRU.foldl_cap ops { cap := cap }
+
+/-- Equation lemmas of the model functions are generated lazily in whichever module first rewrites
+with them.  Generate them here, so that `SV/Props/C10.lean` contains the property theorems only
+(the audit counts every theorem of that module as a proof obligation). -/
+theorem eqns_pregenerated : True := by
+  have := @TTL.add.eq_1
+  have := @TTL.get.eq_1
+  have := @TTL.done.eq_1
+  have := @TTL.evictLocked.eq_1
+  have := @TTL.step.eq_1
+  have := @TTL.step.eq_2
+  have := @TTL.step.eq_3
+  have := @TTL.step.eq_4
+  have := @TTL.step.eq_5
+  have := @TTL.run.eq_1
+  have := @TTL.drainOps.eq_1
+  have := @TTL.member.eq_1
+  have := @LRU.add.eq_1
+  have := @LRU.get.eq_1
+  have := @LRU.done.eq_1
+  have := @LRU.remove.eq_1
+  have := @LRU.step.eq_1
+  have := @LRU.step.eq_2
+  have := @LRU.step.eq_3
+  have := @LRU.step.eq_4
+  have := @LRU.run.eq_1
+  have := @LRU.drainOps.eq_1
+  have := @LRU.member.eq_1
+  have := @Core.valOf.eq_1
+  have := @Core.release.eq_1
+  have := @Core.newTok.eq_1
+  have := @Core.newRc.eq_1
+  have := @Core.fin.eq_1
+  have := @held.eq_1
+  have := @RC.dec.eq_1
+  have := @RC.inc.eq_1
+  have := @RC.finalize.eq_1
+  have := @RC.initialize.eq_1
+  trivial
+
 end SV.Refcount
